@@ -346,10 +346,21 @@ class XPathFunction(XPathToken):
         assert nargs, "a partial function requires at least a placeholder token"
 
         def evaluate(context: ta.ContextType = None) -> 'XPathFunction':
-            return self
+            if all(tk.symbol == '(value)' or tk.symbol == '?' and not tk for tk in self):
+                return self  # a function item: its fixed arguments are values
+
+            # a partial application written in the expression: the fixed arguments
+            # are evaluated now and the result is a new function item
+            func = copy(self)
+            func._items = [
+                tk if tk.symbol == '?' and not tk else
+                ValueToken(self.parser, value=tk.evaluate(context)) for tk in self
+            ]
+            func.to_partial_function()
+            return func
 
         def select(context: ta.ContextType = None) -> Iterator['XPathFunction']:
-            yield self
+            yield evaluate(context)
 
         # bind to this object: it can be a copy of a function that is already partial
         cls = self.__class__
